@@ -470,6 +470,13 @@ func (e *Exec) check(c *Term, label string) {
 	if c.IsFalse() {
 		// the path condition is known satisfiable: certain violation on this path.
 		// The path continues (without assuming false) so later assertions are still checked.
+		if e.Violations[label] == nil {
+			// a model of exactly the current path condition is needed
+			if r := e.sol.Check(); r != Sat {
+				e.Unknowns++
+				return
+			}
+		}
 		e.recordViolation(label)
 		return
 	} else {
